@@ -1,6 +1,7 @@
 package main
 
 import (
+	"context"
 	"fmt"
 	"math/rand"
 	"sort"
@@ -384,7 +385,20 @@ func scatterWorld(s *stats, rng *rand.Rand, nRegions, rounds int, scale int) err
 	if w.safeguardVacuous() {
 		s.count("scatter_worlds_without_labels_and_rules", 1)
 	}
-	sc := schedule.NewRegionScatterer(cl.ctx, cl)
+	// the scatterer belongs to an owner with a context of its own (the running cluster); see the lifecycle below
+	var cancels []context.CancelFunc
+	defer func() {
+		for _, c := range cancels {
+			c()
+		}
+	}()
+	newOwner := func() *schedule.RegionScatterer {
+		ctx, cancel := context.WithCancel(cl.ctx)
+		cancels = append(cancels, cancel)
+		return schedule.NewRegionScatterer(ctx, cl)
+	}
+	sc := newOwner()
+	restartIn := -1
 	sh := newShadow(w)
 	groups := []string{"", "g1", "g2", "g3"}[:1+rng.Intn(4)]
 	if scale > 0 {
@@ -409,6 +423,22 @@ func scatterWorld(s *stats, rng *rand.Rand, nRegions, rounds int, scale int) err
 	for k := 0; k < calls; k++ {
 		if dynamic && rng.Intn(100) < 4 {
 			cl.mutate(rng, s, true)
+		}
+		// lifecycle: the owner stops (its context is cancelled first, as pd-server does), requests already on their
+		// way still reach the old scatterer; then the owner starts again with a new scatterer on the same cluster
+		if dynamic && restartIn < 0 && rng.Intn(100) < 1 {
+			cancels[len(cancels)-1]()
+			restartIn = rng.Intn(5)
+			s.count("lifecycle_scatterer_owner_stopped", 1)
+		} else if restartIn == 0 {
+			sc = newOwner()
+			sh = newShadow(w)
+			sh.exact = cl.allocFailPct == 0
+			restartIn = -1
+			s.count("lifecycle_scatterer_owner_started_again", 1)
+		} else if restartIn > 0 {
+			restartIn--
+			s.count("lifecycle_scatter_calls_on_a_stopped_owner", 1)
 		}
 		id := regions[rng.Intn(len(regions))].GetID()
 		region := cl.GetRegion(id)
